@@ -20,6 +20,10 @@ pub enum TreeOracle {
     C01,
     C03,
     C17,
+    /// well-formed stream + the argument-domain rules of C04
+    C04,
+    /// only opcodes of the requested protocol, right header
+    C05,
 }
 
 #[derive(Clone, Debug, Serialize, Deserialize)]
@@ -89,6 +93,30 @@ pub fn run_node(sc: &ScriptCase, oracle: TreeOracle) -> Result<NodeOut, Fail> {
         }
         TreeOracle::C17 => {
             c17::compare(&out, &tr).map_err(|f| f.with_output(&out))?;
+        }
+        TreeOracle::C04 => {
+            for op in &ops {
+                if let Some(e) = lexer::c04_domain(op) {
+                    return Err(Fail::new(format!("{}:{}", e.class, e.code.map(t::name_of).unwrap_or("-")), e.to_string()).with_output(&out));
+                }
+            }
+            if ops.last().map(|o| o.code()) != Some(t::STOP) || ops.iter().filter(|o| o.code() == t::STOP).count() != 1 {
+                return Err(Fail::new("stop-count", "not exactly one STOP, as the last opcode".to_string()).with_output(&out));
+            }
+        }
+        TreeOracle::C05 => {
+            for op in &ops {
+                if op.info.proto > sc.protocol {
+                    return Err(Fail::new(
+                        format!("newer-opcode:{}@P{}", op.info.name, sc.protocol),
+                        format!("protocol {} output contains {} (introduced in protocol {}) at offset {}", sc.protocol, op.info.name, op.info.proto, op.pos),
+                    )
+                    .with_output(&out));
+                }
+            }
+            if sc.protocol == 0 && out.iter().any(|b| *b >= 0x80) {
+                return Err(Fail::new("non-ascii@P0", "protocol 0 output contains a byte >= 0x80".to_string()).with_output(&out));
+            }
         }
     }
     // state after the scripted prefix = state recorded by body step #len (1-based), i.e. before the free step
@@ -195,6 +223,7 @@ pub fn run_tree(ctx: &Ctx, out: &mut Outcome, depth: usize, oracle: TreeOracle) 
         }
     }
     run_rows(ctx, out, oracle);
+    run_dict(ctx, out, oracle);
     if out.failed() {
         out.stats.evaluations += total_runs;
         return;
@@ -265,6 +294,87 @@ pub fn run_rows(ctx: &Ctx, out: &mut Outcome, oracle: TreeOracle) {
     out.stats.evaluations += total;
     out.stats.add("name-table sweep: scripted GLOBAL / INST programs, first two entropy bytes enumerated", total);
     out.stats.add("name-table sweep: programs whose script was not followed (skipped)", unfollowed);
+}
+
+/// boundary words an entropy-driven value draw may meet: every 4-byte and 8-byte pattern that decodes to an
+/// extreme integer or a special float in either byte order, and bytes that are special inside text arguments
+fn entropy_dictionary() -> Vec<Vec<u8>> {
+    let mut words: Vec<Vec<u8>> = vec![];
+    for w in [0u32, u32::MAX, 0x8000_0000, 0x7fff_ffff, 1, 0xff, 0x100, 0xffff, 0x1_0000, 0x0a0a_0a0a, 0x2e2e_2e2e, 0x5c5c_5c5c, 0x2727_2727, 0x9595_9595, 0x5c75_5c75] {
+        words.push(w.to_le_bytes().to_vec());
+        words.push(w.to_be_bytes().to_vec());
+    }
+    for f in [f64::INFINITY, f64::NEG_INFINITY, f64::NAN, -0.0f64, f64::MAX, f64::MIN_POSITIVE, 5e-324, 1e300] {
+        words.push(f.to_le_bytes().to_vec());
+        words.push(f.to_be_bytes().to_vec());
+    }
+    // signalling NaNs and a NaN with payload
+    for bits in [0x7ff0_0000_0000_0001u64, 0xfff0_0000_0000_0001, 0x7ff8_dead_beef_0001, 0x7ff4_0000_0000_0000] {
+        words.push(bits.to_le_bytes().to_vec());
+        words.push(bits.to_be_bytes().to_vec());
+    }
+    words.sort();
+    words.dedup();
+    // repeated so that several consecutive draws see the word
+    words.into_iter().map(|w| w.iter().cycle().take(w.len() * 4).copied().collect()).collect()
+}
+
+/// Value-dependent corners: every program of one or two scripted opcodes (all that the loop offers from the
+/// empty machine) is generated with each entry of a dictionary of boundary words as its fuzzer bytes - the
+/// scripted choices consume no entropy, so the first value draw of the program decodes the word.
+pub fn run_dict(ctx: &Ctx, out: &mut Outcome, oracle: TreeOracle) {
+    if out.failed() {
+        return;
+    }
+    let dict = entropy_dictionary();
+    let mut total = 0u64;
+    let mut unfollowed = 0u64;
+    for protocol in 0u8..=5 {
+        // scripts of length 1 and 2
+        let root = ScriptCase { protocol, script: vec![], entropy: Entropy::Bytes(vec![]), allow_ext: true, allow_buffer: true };
+        let Ok(n0) = run_node(&root, oracle) else { continue };
+        let mut scripts: Vec<Vec<u8>> = n0.valid.iter().map(|v| vec![*v]).collect();
+        let firsts: Vec<ScriptCase> = scripts.iter().map(|s| ScriptCase { protocol, script: s.clone(), entropy: Entropy::Bytes(vec![]), allow_ext: true, allow_buffer: true }).collect();
+        let r1 = par_map(&firsts, |sc| run_node(sc, oracle).map(|n| n.valid).unwrap_or_default());
+        for (sc, valid) in firsts.iter().zip(r1) {
+            for v in valid {
+                let mut s = sc.script.clone();
+                s.push(v);
+                scripts.push(s);
+            }
+        }
+        let heads: Vec<Vec<u8>> = if protocol >= 4 { vec![vec![0], vec![1]] } else { vec![vec![]] };
+        let mut cases: Vec<ScriptCase> = Vec::new();
+        for s in &scripts {
+            for h in &heads {
+                for d in &dict {
+                    let mut b = h.clone();
+                    b.extend_from_slice(d);
+                    cases.push(ScriptCase { protocol, script: s.clone(), entropy: Entropy::Bytes(b), allow_ext: true, allow_buffer: true });
+                }
+            }
+        }
+        let results = par_map(&cases, |sc| run_node(sc, oracle).map(|_| ()));
+        total += cases.len() as u64;
+        for (sc, r) in cases.iter().zip(results.into_iter()) {
+            match r {
+                Err(f) if f.sig.starts_with("harness:") => unfollowed += 1,
+                Err(f) => {
+                    let mut st = Stats::default();
+                    if ctx.fail(&mut st, f.clone()).is_err() {
+                        out.violation = Some(Violation { fail: f, case: json!({"script_case": sc, "script_names": sc.names()}) });
+                        out.stats.evaluations += total;
+                        return;
+                    }
+                    out.stats.merge(st);
+                }
+                Ok(()) => {}
+            }
+        }
+    }
+    out.stats.evaluations += total;
+    out.stats.add("dictionary sweep: one- and two-opcode programs x boundary words as fuzzer bytes", total);
+    out.stats.add("dictionary sweep: programs whose script was not followed (skipped)", unfollowed);
 }
 
 pub fn replay(ctx: &Ctx, sc: &ScriptCase, oracle: TreeOracle) -> Result<(), Fail> {
